@@ -99,10 +99,11 @@ def generic_orders(chk):
         mentioned = {m["param"] for m in members}
         # a parameter the generated members do not mention is kept alive the way Rust requires it: a skipped PhantomData member
         phantom = [f"#[serde(skip)] pub ph{i}: std::marker::PhantomData<{p}>" for i, p in enumerate(params) if p not in mentioned]
+        ann = "#[typeshare]" if c.get("constraint", "none") == "none" else f'#[typeshare(swiftGenericConstraints = "{params[-1]}: Equatable")]'
         if c["host"] == "struct":
-            src = f"#[typeshare]\npub struct HostG{g} {{\n" + "".join(f"    pub {n}: {typecases.rust_text(t)},\n" for n, t in trees) + "".join(f"    {x},\n" for x in phantom) + "}\n"
+            src = f"{ann}\npub struct HostG{g} {{\n" + "".join(f"    pub {n}: {typecases.rust_text(t)},\n" for n, t in trees) + "".join(f"    {x},\n" for x in phantom) + "}\n"
         elif c["host"] == "vfield":
-            src = (f'#[typeshare]\n#[serde(tag = "t", content = "c")]\npub enum HostG{g} {{\n    Sv {{\n' +
+            src = (f'{ann}\n#[serde(tag = "t", content = "c")]\npub enum HostG{g} {{\n    Sv {{\n' +
                    "".join(f"        {n}: {typecases.rust_text(t)},\n" for n, t in trees) + "".join(f"        {x.replace('pub ', '')},\n" for x in phantom) + "    },\n    Unit,\n}\n")
         elif c["host"] == "alias_vec":          # Rust accepts an alias parameter that the aliased type does not mention
             target = trees[0][1] if trees else {"k": "vec", "e": {"k": "prim", "n": "String"}}
